@@ -7,7 +7,7 @@ ID = 'C06'
 COQ_TARGETS = ['C06/Props.vo', 'C06/Corr.vo']
 PROPS = 'C06/Props.v'
 EXTRACTED = []
-CASE_IMPORTS = 'From V Require Import C01.Model C06.Model C06.Search C06.Corr.'
+CASE_IMPORTS = 'From V Require Import C01.Model C06.Model C06.LookAhead C06.Search C06.Lcs C06.Corr.'
 RULE = ('sessions of 1-3 matcher runs sharing one symmetry cache (as repair_graph does): (a) every pattern on <= 3 nodes against '
         'every graph on <= 4 nodes (quick; <= 4 against <= 5 sampled in thorough), unlabelled, keys relabelled at random; (b) '
         'random graphs of 3-7 nodes with 1-3 node colours and 1-2 edge colours, patterns cut out of the graph (induced, '
